@@ -117,7 +117,11 @@ ODD_STATS = ['("_G").x = 1', '("a").b.c = 1', '_G["x"].y = 1', '("_G")["x"] = 1'
              'local t = {_G = 1, [_G] = 2, ["_G.x"] = 3}', '_G["a.b"] = 1', 't["!x"] = 1', 't["#int1"] = 1', 'x = ("_G").y',
              'x = _G', 'x = _G._G._G', 'x = ("_G")', 'x = #_G', 'x = -_G.y', 'require("_G")', 'require(_G)', 'import("")',
              'x = y.z.w()', 'x.y().z = 1', 'x:y().z = 1', 'local a <const>, b <close> = 1, nil', 'goto done ::done::',
-             'for _G = 1, 2 do end', 'for _G in pairs(_G) do end', 'local function _G() end', 'return _G']
+             'for _G = 1, 2 do end', 'for _G in pairs(_G) do end', 'local function _G() end', 'return _G',
+             # one identifier reused as table, member and first parameter; dotted colon functions on a variable called self
+             # (finding C01-self-referential-member: the retry loop of go-to-definition never ended)
+             'local x = {} function x.x(x) end', 'x = {} function x:x(x) return x end', 'function self.a:f() return self.zz, self end',
+             'local abc = {} function abc.abc(abc, y) end', 'self = {a={b={}}} function self.a.b:f() return self end']
 
 
 def gen_server(rng, tier):
